@@ -69,7 +69,7 @@ def evaluate_graph(case):
     labels = ["k=%d" % k, info["reason"]]
     results = {}
     numpy.random.seed(case["np_seed"])
-    results["random"] = lib_call(dsw.approximate_capacity, accessor=acc, repeats=case["repeats"])
+    results["random"] = lib_call(dsw.approximate_capacity, _twice=False, accessor=acc, repeats=case["repeats"])
     results["single"] = lib_call(dsw.approximate_capacity, accessor=acc, repeats=1, process=True)
     if not numpy.array_equal(acc, snapshot):
         return bad("approximate_capacity modified the accessor", labels)
